@@ -375,8 +375,9 @@ inline void runFaulted(Ctx& c, const StreamSet& S, const std::vector<FFrame>& L,
         c.note("faults=" + faultLog + " stream=" + describeFrames(fed, call));
         if (call == twinAt)
         {
-            twin = std::make_unique<ASAM::CMP::Decoder>(dec);
-            c.count("decoder_twins_used_next_to_the_original");
+            twin = cloneDecoder(dec);
+            if (twin)
+                c.count("decoder_twins_used_next_to_the_original");
         }
         std::vector<std::shared_ptr<ASAM::CMP::Packet>> gotTwin;
         const bool twinFirst = twin && (call % 2 == 0);
